@@ -15,9 +15,27 @@ class _Subst(ast.NodeTransformer):
         self.env = env
 
     def visit_Name(self, node):
-        if isinstance(node.ctx, ast.Load) and node.id in self.env:
+        if isinstance(node.ctx, ast.Load) and node.id in self.env and node.id != "__heap__":
             return copy.deepcopy(self.env[node.id])
         return node
+
+    def _forward(self, node):
+        """store-to-load forwarding: `O[k]` / `O.a` read after `O[k] = v` / `O.a = v` on this path (and before anything that
+        may change O) is v"""
+        heap = self.env.get("__heap__")
+        if heap and isinstance(getattr(node, "ctx", None), ast.Load):
+            v = heap.get(unparse(node))
+            if v is not None:
+                return copy.deepcopy(v)
+        return None
+
+    def visit_Subscript(self, node):
+        node = self.generic_visit(node)
+        return self._forward(node) or node
+
+    def visit_Attribute(self, node):
+        node = self.generic_visit(node)
+        return self._forward(node) or node
 
     def visit_Lambda(self, node):
         return node
@@ -53,6 +71,8 @@ def subst(expr, env):
 class Path:
     def __init__(self, conds, env, ret, how, effects, lineno=0):
         self.conds = conds      # [(test AST substituted, bool taken)]
+        self.heap = (env or {}).get("__heap__") or {}
+        env = {k: v for k, v in (env or {}).items() if k != "__heap__"}
         self.env = env
         self.ret = ret          # AST or None
         self.how = how          # 'return' | 'raise' | 'fall' | 'continue' | 'break'
@@ -119,6 +139,34 @@ def _mutated_object(effect):
     return None
 
 
+def heap_update(env, effect):
+    """maintain env["__heap__"] (text of a subscript/attribute location -> the value last stored there on this path):
+    a plain store records its value; anything that may change an object in place — a store into it, a mutating method,
+    any other call statement, a loop — forgets what is known about the locations it may touch (all of them, for calls)"""
+    heap = dict(env.get("__heap__") or {})
+    e = effect.value if isinstance(effect, ast.Expr) else effect
+    changed = False
+    if isinstance(e, ast.Assign) and len(e.targets) == 1 and isinstance(e.targets[0], (ast.Subscript, ast.Attribute)):
+        tgt = unparse(e.targets[0])
+        obj = unparse(e.targets[0].value)
+        for k in [k for k in heap if k == tgt or k.startswith(obj + "[") or k.startswith(tgt + ".") or k.startswith(tgt + "[")
+                  or any(isinstance(n, (ast.Attribute, ast.Subscript, ast.Name)) and unparse(n) in (tgt, obj) for n in ast.walk(heap[k]))]:
+            del heap[k]
+        # a value that reads the location itself (x.a = x.a + 1) is not forwarded
+        if not any(isinstance(n, (ast.Attribute, ast.Subscript)) and unparse(n) == tgt for n in ast.walk(e.value)) and \
+                not any(isinstance(n, (ast.Call, ast.Await, ast.Yield, ast.YieldFrom)) for n in ast.walk(e.value)):
+            heap[tgt] = e.value
+        changed = True
+    elif heap:
+        heap = {}
+        changed = True
+    if not changed:
+        return env
+    env = dict(env)
+    env["__heap__"] = heap
+    return env
+
+
 def freeze_readers(env, effects, effect, rest=None):
     """a local bound to an expression that reads object O keeps the value O had when it was bound: before an effect that
     changes O in place, such locals — those still used afterwards (`rest`: the statements that follow) — are materialised as
@@ -133,7 +181,7 @@ def freeze_readers(env, effects, effect, rest=None):
         live = {n.id for st in rest for n in ast.walk(st) if isinstance(n, ast.Name)}
     cands = {}
     for name, val in env.items():
-        if not isinstance(val, ast.AST) or isinstance(val, (ast.Name, ast.Constant)):
+        if name == "__heap__" or not isinstance(val, ast.AST) or isinstance(val, (ast.Name, ast.Constant)):
             continue
         if live is not None and name not in live:
             continue
@@ -545,10 +593,12 @@ def run_paths(stmts, env=None, max_paths=256, decide=None, inline=None, fold=Non
                                 eff_ = ast.Assign(targets=[subst(e, env)], value=v, lineno=s.lineno)
                                 env, effects = freeze_readers(env, effects, eff_, stmts[i:])
                                 effects = effects + [eff_]
+                                env = heap_update(env, eff_)
                     else:
                         eff_ = ast.Assign(targets=[subst(t, env)], value=val, lineno=s.lineno)
                         env, effects = freeze_readers(env, effects, eff_, stmts[i:])
                         effects = effects + [eff_]
+                        env = heap_update(env, eff_)
                 continue
             if isinstance(s, ast.AugAssign):
                 if isinstance(s.target, ast.Name):
@@ -559,6 +609,7 @@ def run_paths(stmts, env=None, max_paths=256, decide=None, inline=None, fold=Non
                     eff_ = ast.AugAssign(target=subst(s.target, env), op=s.op, value=subst(s.value, env), lineno=s.lineno)
                     env, effects = freeze_readers(env, effects, eff_, stmts[i:])
                     effects = effects + [eff_]
+                    env = heap_update(env, eff_)
                 continue
             if isinstance(s, ast.Expr):
                 v = s.value
@@ -582,6 +633,7 @@ def run_paths(stmts, env=None, max_paths=256, decide=None, inline=None, fold=Non
                 eff_ = D(F(subst(s.value, env)), conds)
                 env, effects = freeze_readers(env, effects, eff_, stmts[i:])
                 effects = effects + [eff_]
+                env = heap_update(env, eff_)
                 continue
             if isinstance(s, ast.Return):
                 rv = D(F(subst(s.value, env)), conds) if s.value is not None else None
@@ -664,6 +716,7 @@ def run_paths(stmts, env=None, max_paths=256, decide=None, inline=None, fold=Non
             if isinstance(s, (ast.For, ast.AsyncFor, ast.While)):
                 env = dict(env)
                 k_loop = sum(1 for e in effects if isinstance(e, (ast.For, ast.AsyncFor, ast.While)))
+                env.pop("__heap__", None)       # a loop may store anywhere
                 for n in assigned_names([s]):
                     env[n] = ast.Name(id=f"{n}__loop{k_loop}", ctx=ast.Load())
                 effects = effects + [s]
